@@ -398,8 +398,8 @@ func permutations(n int, f func(p []int)) {
 func c15() int {
 	n := 0
 	names := []string{"/srv/x", "/srv/a b", "/srv/a=b", "/srv/a#b", "/srv/a,b", "/srv/é", `/srv/a"b`, "ABBA", "/srv/name=x", "/srv/a'b",
-		"/srv/a\\b", "/srv/a\tb", "/srv/caf\xe9", "/srv/a\u00a0b", "/srv/a\x01b"}
-	comms := []string{"cat", "my prog", "ABBA", "a=b", "my\tprog"}
+		"/srv/a\\b", "/srv/a\tb", "/srv/caf\xe9", "/srv/a\u00a0b", "/srv/a\x01b", "/srv/live '99'", "/srv/end ", "/srv/end=", "/srv/end,"}
+	comms := []string{"cat", "my prog", "ABBA", "a=b", "my\tprog", "'sh'", " sh "}
 	profiles := []string{"foo", "foo bar", "DEAD", "foo//null-/srv/x"}
 	optional := [][]kv{
 		{{"requested_mask", "r", false}, {"denied_mask", "r", false}},
